@@ -9,7 +9,7 @@
 From Coq Require Import List NArith ZArith Bool.
 From V.Lib Require Import Base Hex.
 From V.Gen Require Import C03Tables.
-From V.C03 Require Import Codec Sha256.
+From V.C03 Require Import Codec.
 Import ListNotations.
 Local Open Scope N_scope.
 
@@ -273,8 +273,9 @@ Definition effective_branch (ctx : N) (t : tx_t) : N :=
   | inr (inl x) => fst (fst x)
   | inr (inr x) => fst (fst x)
   end.
-Definition legacy_txid (valid : N -> bytes -> bool) (t : tx_t) : bytes := sha256d (tx_write valid t).
-Definition header_hash (h : header_t) : bytes := sha256d (header_write h).
+(** [H] is the identifier hash (SHA-256d in the implementation; any function for the theorems). *)
+Definition legacy_txid (H : bytes -> bytes) (valid : N -> bytes -> bool) (t : tx_t) : bytes := H (tx_write valid t).
+Definition header_hash (H : bytes -> bytes) (h : header_t) : bytes := H (header_write h).
 
 (** * Amount fields of a decoded transaction (for [amount_fields_in_range]) *)
 Definition txout_values (tp : ty c_transparent) : list N := map fst (snd tp).
